@@ -366,7 +366,7 @@ def run(ctx):
     pool1 = D.perms_upto(4, 1)
     s3 = D.perms(3)
     sub_s3 = [c for r in range(1, 7) for c in itertools.combinations(s3, r)]           # 63
-    small = [c for r in (1, 2) for c in itertools.combinations(pool1, r)]               # 594
+    small = [c for r in (1, 2) for c in itertools.combinations(pool1, r)]               # 561
     combined = []
     for name, (required, shape) in T.CORE.items():
         req = tuple(Perm(t) for t in required)
@@ -414,15 +414,15 @@ def run(ctx):
     ctx.run("C19.find_strategies.fast", bases, chunk=60, rule=rule)
 
     # slow strategy: keep to bases whose pin automaton is cheap (perms <= 4, <= 2-3 elements)
-    slow_src = sub_s3 + (rng.sample(small, 40 if quick else 594)) + rng.sample(combined, 20 if quick else 400)
+    slow_src = sub_s3 + (rng.sample(small, 40) if quick else list(small)) + rng.sample(combined, min(len(combined), 20 if quick else 400))
     slow_src = [b for b in slow_src if all(len(p) <= 4 for p in b)]
     ctx.run("C19.applies.FinitelyManySimplesStrategy", slow_src, chunk=4,
             rule="subsets of S3, seeded <= 2-element bases, seeded required+extra bases (perms <= 4)")
     ctx.run("C19.find_strategies.slow", slow_src, chunk=4, rule="same bases as the slow strategy")
 
     inv = []
-    for basis in sub_s3 + rng.sample(small, 150 if quick else 594) + rng.sample(combined, 150 if quick else 1500) \
-            + rng.sample(larger, 100 if quick else 1000):
+    for basis in sub_s3 + (rng.sample(small, 150) if quick else list(small)) + rng.sample(combined, min(len(combined), 150 if quick else 1500)) \
+            + rng.sample(larger, min(len(larger), 100 if quick else 1000)):
         arr = list(basis)
         if rng.random() < 0.5:
             arr.append(rng.choice(arr))
@@ -431,7 +431,7 @@ def run(ctx):
     ctx.run("C19.invariance", inv, chunk=20,
             rule="bases in a seeded order with repetitions x {list, reversed tuple, doubled, set, frozenset, Basis} x 8 "
                  "symmetric images (geometric spec map); quick search")
-    ctx.run("C19.invariance.slow", (rng.sample(sub_s3, 12) if quick else sub_s3) + rng.sample(slow_src, 8 if quick else 150), chunk=2,
+    ctx.run("C19.invariance.slow", (rng.sample(sub_s3, 12) if quick else sub_s3) + rng.sample(slow_src, min(len(slow_src), 8 if quick else 150)), chunk=2,
             rule="slow search on 8 symmetric images, reordered with one repeat")
     ctx.assumptions += [
         "B layer: bounded.  Hypotheses of the corollaries of arXiv:1912.07503 as quoted in the docstrings of "
